@@ -5,7 +5,7 @@
 //! runs the same oracles as the property checks.
 use crate::engine::bytespec::{ByteSpec, Cut, Hex, Seg};
 use crate::engine::{CaseResult, Fail, Outcome};
-use crate::props::codec::{CodecCase, Drain, Method, ReadStep, Side};
+use crate::props::codec::{CodecCase, Drain, Method, Nudge, ReadStep, Side};
 use crate::props::iovec_sm::{self, History, Op, Profile};
 use crate::props::stream_in::{Delivery, StreamSpec, Token};
 use crate::props::{c01, c02, c06, c07, c08, c09, c12};
@@ -97,7 +97,16 @@ fn side(c: &mut Cursor) -> Side {
     let methods = (0..m).map(|_| method(c)).collect();
     let d = (c.u8() % 4) as usize;
     let drains = (0..d).map(|_| drain(c)).collect();
-    Side { cuts, methods, drains }
+    let n = (c.u8() % 4) as usize;
+    let nudges = (0..n)
+        .map(|_| match c.u8() % 6 {
+            0 | 1 | 2 => Nudge::Nothing,
+            3 => Nudge::Flush,
+            4 => Nudge::Ensure(c.u16() as u32),
+            _ => Nudge::LeaveRemaining(c.u16() % 300),
+        })
+        .collect();
+    Side { cuts, methods, drains, nudges }
 }
 
 fn first_err(results: Vec<(&'static str, CaseResult)>) -> (&'static str, CaseResult) {
@@ -320,6 +329,7 @@ pub fn run_filtered(target: &str, data: &[u8], only: Option<&str>) -> (&'static 
                         delivery: delivery.clone(),
                         drop_order: vec![1, 0, 2],
                         keep_every: 1,
+                        nudges: vec![],
                     }),
                 ));
                 results.push((
@@ -329,6 +339,7 @@ pub fn run_filtered(target: &str, data: &[u8], only: Option<&str>) -> (&'static 
                         delivery: delivery.clone(),
                         drop_order: vec![1, 0, 2],
                         keep_every: 1,
+                        nudges: vec![],
                     }),
                 ));
             }
@@ -340,6 +351,7 @@ pub fn run_filtered(target: &str, data: &[u8], only: Option<&str>) -> (&'static 
                         delivery,
                         max_size,
                         limit,
+                        nudges: vec![],
                     }),
                 ));
             }
@@ -374,7 +386,7 @@ pub fn seeds(target: &str) -> Vec<Vec<u8>> {
         for i in 0..cuts {
             v.extend_from_slice(&[0, i.wrapping_mul(53), 40 + i * 30]);
         }
-        v.extend_from_slice(&[2, 1, 2, 2, 2, 128, 5]);
+        v.extend_from_slice(&[2, 1, 2, 2, 2, 128, 5, 0]);
         v
     };
     match target {
